@@ -93,6 +93,26 @@ def _topologies(ctx):
     return tops
 
 
+def field_names(idx, edges, c):
+    """true edge index -> field name, for the edges leaving class c.  In every second program edges of the same kind to the same
+    destination are named alike in every class that has one (two classes then declare the SAME member name with the SAME
+    anonymous annotation, e.g. Tree.e0: list[Node] and Node.e0: list[Node]); otherwise every edge has its own name."""
+    out, used = {}, set()
+    for j, (s_, kind, d) in enumerate(edges):
+        if s_ != c:
+            continue
+        name = f"e{j}"
+        if idx % 2 == 1:
+            first = min(k for k, (_, kk, dd) in enumerate(edges) if kk == kind and dd == d)
+            if f"e{first}" not in used:
+                name = f"e{first}"
+        if name in used:
+            name = f"x{j}"
+        used.add(name)
+        out[j] = name
+    return out
+
+
 def build_prog(idx, n, edges, r):
     classes = []
     for c in range(n):
@@ -100,10 +120,11 @@ def build_prog(idx, n, edges, r):
         # `when` needs conversion in both directions: a level passed through raw shows in the marshalled form
         fields = [["val", ["int"]], ["when", ["date"]]]
         defaults = []
+        names = field_names(idx, edges, c)
         for j, (s, kind, d) in enumerate(edges):
             if s != c:
                 continue
-            fn = f"e{j}"
+            fn = names[j]
             fields.append([fn, edge_ty(kind, d)])
             dv = wrap_val(kind, None)
             if kind == "direct" or flavour == "typeddict" or (flavour == "namedtuple" and isinstance(dv, list) and dv[0] in ("l", "d")):
@@ -123,6 +144,7 @@ def deep_value(prog, edges, cls, depth, path_edge=None):
     out = []
     # choose the first outgoing edge for the descent
     mine = [(j, e) for j, e in enumerate(edges) if e[0] == cls]
+    by_name = {nm: j for j, nm in field_names(int(c["module"].rsplit("_", 1)[1]), edges, cls).items()}
     for fn, ft in c["fields"]:
         if fn == "val":
             out.append([fn, depth])
@@ -130,7 +152,7 @@ def deep_value(prog, edges, cls, depth, path_edge=None):
         if fn == "when":
             out.append([fn, ["date", 737000 + depth]])
             continue
-        j = int(fn[1:])
+        j = by_name[fn]
         s, kind, d = edges[j]
         if depth > 0 and mine and j == mine[0][0]:
             out.append([fn, wrap_val(kind, deep_value(prog, edges, d, depth - 1))])
